@@ -8,7 +8,7 @@ C16.bias     sample_goal on the true edge of random_bool(goal_bias), sample_unif
 C16.balance  RRT-Connect grows the start tree when |start| < |goal|, the goal tree when >, then extends the other
              tree toward the new node; success requires `Reached`
 """
-from ..core import (RuleResult, Violation, DISTANCE, SAMPLE_GOAL, SAMPLE_UNIFORM, VEC_LEN, VEC_PUSH, user_call)
+from ..core import (RuleResult, Violation, DISTANCE, SAMPLE_GOAL, SAMPLE_UNIFORM, VEC_LEN, VEC_PUSH, IS_VALID, user_call)
 from ..engine import walk, fmt_terms, strip_clone, T
 from .. import planner as P
 from .c05 import steer_sites, analyze_steer, pub_f64_fields
@@ -103,7 +103,75 @@ def run(ctx, tier):
             _balance(ctx, p, r_bal)
     if n_bal < 1:
         r_bal.violations.append(Violation('C16', 'C16.balance', 'oxmpl', 'floor', 'no bidirectional planner found (floor 1)'))
-    return [r_near, r_one, r_bias, r_bal]
+    r_ext = RuleResult('C16.extend', 'once a sample is drawn the iteration extends the tree unless the motion (or the state) is rejected')
+    n_ext = 0
+    for p in tree_planners:
+        n_ext += _extend(ctx, p, r_ext)
+    if n_ext < 3:
+        r_ext.violations.append(Violation('C16', 'C16.extend', 'oxmpl', 'floor', 'only %d sampling loops / extension helpers analysed (floor 3)' % n_ext))
+    return [r_near, r_one, r_bias, r_bal, r_ext]
+
+
+def _extend(ctx, p, r_ext):
+    """between drawing the sample and the end of the iteration the tree is extended (a node is pushed, directly or by the
+    extension helper) on every path except those that take the failing edge of a motion check / validity query or the
+    `None` answer of the extension helper.  Any other way round the push (`if d < eps { continue }`, a cap, a filter) drops
+    an extension the property demands."""
+    cache = {}
+    count = 0
+    mcs = P.motion_calls(ctx, p)
+    for b in p['methods']:
+        fn = ctx.fn(b)
+        evs = _push_events(ctx, p, fn, cache)
+        if not evs or b.name in ('setup', 'new'):
+            continue
+        push_blocks = frozenset(bi for (bi, _k, _t, _c) in evs)
+        allowed = set()
+        for m in mcs:
+            if m['fn'] is fn:
+                allowed |= set(m['false_edges'])
+        te, fe, _sb = fn.bool_edges(lambda n: n[0] == 'call' and n[1] == IS_VALID)
+        allowed |= set(fe)
+        helpers = {t['func'].get('path') for (_bi, k, t, _c) in evs if k[0] == 'helper'}
+        if helpers:
+            de = fn.discr_edges(lambda ts: bool(ts) and all(n[0] == 'call' and n[1] in helpers for n in ts))
+            allowed |= set(de.get('0', set()))
+            if '1' in de and '0' not in de:
+                allowed |= set(de.get('otherwise', set()))
+        samples = [bi for bi, t in b.calls() if t['func'].get('path') in (SAMPLE_UNIFORM, SAMPLE_GOAL) and bi in fn.reachable(0)]
+        loops = _main_loops(fn)
+        if samples and loops:
+            for L in loops:
+                inl = [sb for sb in samples if sb in L['body']]
+                if not inl:
+                    continue
+                count += 1
+                outside = frozenset(x for x in range(fn.nb) if x not in L['body'])
+                bad = None
+                for sb in inl:
+                    tgt = fn.blocks[sb]['term'].get('target')
+                    if tgt is None:
+                        continue
+                    r = fn.reachable(tgt, removed=frozenset(allowed), stop=outside | push_blocks)
+                    if any(src in r and src not in push_blocks for (src, _d) in L['back_edges']):
+                        bad = sb
+                r_ext.inst('%s: every iteration that draws a sample reaches a push unless its motion is rejected' % b.path, ok=bad is None, site=fn.loc(L['header']))
+                if bad is not None:
+                    r_ext.violations.append(Violation(
+                        'C16', 'C16.extend', b.path, 'skip',
+                        'after the sample drawn at %s the iteration can end without extending the tree although no motion check or validity '
+                        'query failed: a valid extension from the nearest node is dropped' % fn.loc(bad), loc=fn.loc(L['header'])))
+        elif not samples:
+            # the extension helper: it answers "nothing added" only after a failed motion check
+            count += 1
+            r = fn.reachable(0, removed=frozenset(allowed), stop=push_blocks)
+            bad = [rb for rb in fn.return_blocks() if rb in r and rb not in push_blocks]
+            r_ext.inst('%s: returns without pushing only after a rejected motion' % b.path, ok=not bad, site=b.loc(0))
+            if bad:
+                r_ext.violations.append(Violation(
+                    'C16', 'C16.extend', b.path, 'skip',
+                    'the extension helper can return without adding a node although no motion check or validity query failed', loc=b.loc(0)))
+    return count
 
 
 def _nearest(ctx, p, fn, b, bi, t, info):
